@@ -24,6 +24,7 @@ type Result struct {
 	Nontrivial bool
 	Skipped    bool   // the model leaves this case undefined; executed for totality only
 	Outcome    string // small label, used to count distinct observed outcomes
+	Key        string // explicit-state search: canonical key of the state reached by this case
 	States     int    // explicit-state checks: states visited by this case
 	Trans      int    // transitions (operations applied / executions run)
 	Extra      map[string]int
@@ -55,6 +56,12 @@ type Check struct {
 	Rule        string
 	Assumptions []string
 	Spaces      func(tier string) []*Space
+	// Dyn reconstructs a dynamically created space (BFS level) by name in a worker.
+	Dyn func(tier, name string) *Space
+	// Driver, when set, is called in the parent after the static spaces; it creates
+	// further spaces on the fly (BFS levels) and runs them through run, which
+	// returns the state keys reported per case index.
+	Driver func(tier string, run func(sp *Space) map[int]string)
 	// Post is run in the parent after all spaces (may add to the evidence).
 	Post func(tier string, ev map[string]interface{})
 }
@@ -165,4 +172,11 @@ func ReplayDir() string {
 		return filepath.Join(d, "replays")
 	}
 	return filepath.Join(VerifDir(), "replays")
+}
+
+// RunDir is a scratch directory private to one run (parent and its workers).
+func RunDir() string {
+	d := filepath.Join(WorkDir(), "run-"+os.Getenv("VERIF_RUN_ID"))
+	os.MkdirAll(d, 0755)
+	return d
 }
